@@ -361,6 +361,11 @@ def grid_groups(cmds_all):
                                   ("{t}.spec", ".Tsx", "ts", ["stringly-typed"]), ("{t}_test", ".tS", "ts", ["stringly-typed", "improper-logging"])):
         out.append({"i": f"grid:{len(out)}", "kind": kind, "stem": stem, "ext": ext, "data_hex": _fixed_content(kind).encode().hex(), "base": {}, "pert": {},
                     "touched": [], "fixed_cmds": cmds, "subprocess_cmds": []})
+    # an extension-less python-shebang script whose stem looks like a test file: it is Python, but not a `test_*.py` / `*_test.py` file
+    # (its canonically named reference copy would be: the oracle of the exempting rules comes from a neutrally named copy)
+    for stem in ("test_mod", "{t}_mod_test"):
+        out.append({"i": f"grid:{len(out)}", "kind": "py", "stem": stem, "ext": "", "data_hex": ("#!/usr/bin/env python3\n" + _fixed_content("py")).encode().hex(), "base": {},
+                    "pert": {}, "touched": [], "fixed_cmds": ["method-property", "magic-numbers", "stringly-typed", "nesting"], "subprocess_cmds": []})
     own = {".py": "py", ".js": "ts", ".ts": "ts", ".tsx": "ts", ".jsx": "ts", ".rs": "rs", ".java": "py", ".go": "rs"}
     other = {"py": "rs", "ts": "py", "rs": "ts"}
     for ext in EXT_MAPPED:
@@ -415,6 +420,34 @@ def exempt_shift(exemptions, name: str) -> list[str]:
     return out
 
 
+def ref_name_shift(exemptions, name: str, data: bytes) -> dict:
+    """rules whose name-based exemption answers differently on the name that is linted and on the canonically named reference copy
+    (`test_mod_a` with a python shebang is Python but is not a `test_*.py` file, its reference copy `test_mod_a.py` is): rule id -> does
+    the exemption hold for the linted name.  For these rules the oracle is the neutrally named copy (or nothing when the linted name is exempt)."""
+    cl = spec_class(name, data)
+    if cl not in LANG_EXT or py_suffix(name).lower() == LANG_EXT[cl]:
+        return {}
+    suf = py_suffix(name)
+    ref = name[: len(name) - len(suf)] + LANG_EXT[cl]
+    out = {}
+    for rid, langs, dnf in exemptions:
+        holds = lambda nm: any(all(_natom(k, n, nm) for k, n in conj) for conj in dnf)  # noqa: E731
+        if cl in langs and holds(name) != holds(ref):
+            out[rid] = holds(name)
+    return out
+
+
+def apply_ref_shift(g, res, lang: str, vs: list) -> list:
+    """the language reference `vs` (normalised findings) with the rules of g['ref_shift'] taken from the neutrally named copy"""
+    shift = g.get("ref_shift") or {}
+    if not shift:
+        return vs
+    rules = res["runtime_rules"]
+    keep = [v for v in vs if owner_rule(v[0], rules) not in shift]
+    add = [v for v in (res.get("raw") or {}).get(lang, []) if shift.get(owner_rule(v[0], rules)) is False]
+    return sorted(keep + add)
+
+
 # ------------------------------------------------------------------ running the implementation
 def _norm(v, names):
     """(rule id, twin, line, column, message with the twins' names replaced)"""
@@ -457,11 +490,21 @@ def _drain(p: Path):
     return recs
 
 
-def _reference(root: Path):
+def _lint_src(o, root: Path, relative: bool):
+    """lint <root>/src; `relative`: spelled as the commands under test spell it (`src`, working directory = project root).  Used for
+    projects of symbolic links, where the path-based file-placement rule judges another path for a relative spelling (it resolves the
+    link) than for an absolute one - a path-handling matter outside C15 that must not leak into the oracle of the agnostic rules"""
+    if relative:
+        os.chdir(root)
+        return o.lint_directory(Path("src"))
+    return o.lint_directory(root / "src")
+
+
+def _reference(root: Path, relative: bool = False):
     """unfiltered findings of every registered rule (in-process orchestrator, config from .thailint.yaml)"""
     from src.orchestrator.core import Orchestrator
     o = Orchestrator(project_root=root)
-    vs = o.lint_directory(root / "src")
+    vs = _lint_src(o, root, relative)
     return [{"rule_id": v.rule_id, "file_path": str(v.file_path), "line": v.line, "column": v.column, "message": v.message} for v in vs]
 
 
@@ -478,7 +521,7 @@ def _isolated(d: Path, tag: str, names, data: bytes, config: dict, link_ext=None
         o = Orchestrator(project_root=root)
         o._rules_discovered = True
         o.registry.register(type(rule)())
-        vs = o.lint_directory(root / "src")
+        vs = _lint_src(o, root, link_ext is not None)
         out[rule.rule_id] = sorted(_norm({"rule_id": v.rule_id, "file_path": str(v.file_path), "line": v.line, "column": v.column, "message": v.message}, names)
                                    for v in vs)
     return out
@@ -597,7 +640,7 @@ def run_group(g):
         # reference for path-based (language-agnostic) rules: actual names, base configuration
         root = d / "ref_actual"
         _write_project(root, names, data, g["base"], link)
-        out["agnostic"] = sorted(_norm(v, names) for v in _reference(root))
+        out["agnostic"] = sorted(_norm(v, names) for v in _reference(root, relative=link is not None))
         out["ref_failures"] += _drain(flog)
         # every rule alone (own orchestrator, own copy of the project): the reference the property speaks about
         # ("running or configuring other linters never changes X's findings")
@@ -698,6 +741,12 @@ def build_atab(g, res, agnostic_rules: set[str], tags: Tags):
             r = owner_rule(v[0], rules)
             if r in g.get("raw_rules", []):
                 tab.setdefault(("raw:" + r, lang), []).append((v[0], tags.tag(v)))
+        for r, exempt_here in (g.get("ref_shift") or {}).items():   # the reference copy's name is exempt where the linted name is not (or vice versa)
+            tab.pop((r, lang), None)
+            if not exempt_here:
+                mine = [(v[0], tags.tag(v)) for v in vs if owner_rule(v[0], rules) == r]
+                if mine:
+                    tab[(r, lang)] = mine
     return tab
 
 
@@ -741,7 +790,7 @@ def py_expected(g, res, cmd, agnostic_rules):
     if DOC_LANGS.get(pkg, []) is None:
         src = res["agnostic"]
     elif cl != "other" and cl in DOC_LANGS.get(pkg, []):
-        src = res["refs"].get(cl, [])
+        src = apply_ref_shift(g, res, cl, res["refs"].get(cl, []))
     else:
         src = []
     for v in src:
@@ -896,6 +945,10 @@ def run(tier: str, seed: int, replay: str | None = None) -> int:
         shifted = exempt_shift(tables.get("exempt", []), twin_names(g)[0]) if "error" not in tables else []
         if shifted:
             g["raw"], g["raw_rules"] = True, shifted
+        rshift = ref_name_shift(tables.get("exempt", []), twin_names(g)[0], bytes.fromhex(g["data_hex"])) if "error" not in tables else {}
+        if rshift:
+            g["raw"], g["ref_shift"] = True, rshift
+            g.setdefault("raw_rules", [])
         # the JS-vs-TS relation only holds for names no name-based exemption speaks about (a.test.ts is exempt, a.test.js is not)
         g["js_ts_ok"] = not any(_natom(k, n, nm) for _rid, _l, dnf in tables.get("exempt", []) for conj in dnf for k, n in conj
                                 for nm in (_twins(g["stem"], ".ts")[0], _twins(g["stem"], ".js")[0]) if k != "NStarts") if "error" not in tables else False
@@ -992,7 +1045,7 @@ def run(tier: str, seed: int, replay: str | None = None) -> int:
                 chk.violation({"reason": "a JavaScript file is not analysed like the same content under a TypeScript name (documented: JavaScript is analysed with the TypeScript parser)",
                                "only_as_ts": [v for v in res["js_as_ts"] if v not in res["refs"].get("javascript", [])][:5],
                                "only_as_js": [v for v in res["refs"].get("javascript", []) if v not in res["js_as_ts"]][:5],
-                               "group": {k: v for k, v in g.items() if k not in ("cmds", "subprocess_cmds", "only_cmd", "fixed_cmds", "ood", "raw", "raw_rules", "js_ts_ok")}})
+                               "group": {k: v for k, v in g.items() if k not in ("cmds", "subprocess_cmds", "only_cmd", "fixed_cmds", "ood", "raw", "raw_rules", "ref_shift", "js_ts_ok")}})
         if res.get("iso") is not None:
             chk.dist("isolated-rule reference:" + ("language-agnostic rules, actual names" if res["iso_lang"] == "*" else res["iso_lang"]))
             together = res["agnostic"] if res["iso_lang"] == "*" else res["refs"].get(res["iso_lang"], [])
@@ -1003,10 +1056,10 @@ def run(tier: str, seed: int, replay: str | None = None) -> int:
                                "only_alone": [v for v in alone if v not in together][:6], "only_together": [v for v in together if v not in alone][:6],
                                "reference": res["iso_lang"], "file_names": list(names if res["iso_lang"] == "*" else _twins(g["stem"], LANG_EXT[res["iso_lang"]])),
                                "text_tail": data[-120:].decode("utf-8", "replace"),
-                               "group": {k: v for k, v in g.items() if k not in ("cmds", "subprocess_cmds", "only_cmd", "fixed_cmds", "ood", "raw", "raw_rules", "js_ts_ok")}})
+                               "group": {k: v for k, v in g.items() if k not in ("cmds", "subprocess_cmds", "only_cmd", "fixed_cmds", "ood", "raw", "raw_rules", "ref_shift", "js_ts_ok")}})
         if res["ref_failures"]:
             chk.violation({"reason": "a rule failed internally (swallowed exception) in a reference run under a valid configuration",
-                           "failures": res["ref_failures"][:3], "group": {k: v for k, v in g.items() if k not in ("cmds", "subprocess_cmds", "only_cmd", "fixed_cmds", "ood", "raw", "raw_rules", "js_ts_ok")}})
+                           "failures": res["ref_failures"][:3], "group": {k: v for k, v in g.items() if k not in ("cmds", "subprocess_cmds", "only_cmd", "fixed_cmds", "ood", "raw", "raw_rules", "ref_shift", "js_ts_ok")}})
         for cmd in g["cmds"]:
             o = res["cmds"][cmd]
             pkg = CMD_OWNER[cmd][0]
@@ -1022,7 +1075,7 @@ def run(tier: str, seed: int, replay: str | None = None) -> int:
                      + ("" if g["ext"] == g["ext"].lower() else "(case variant)"))
             chk.dist("outcome:" + next(iter(o)))
             chk.dist("perturbed_sections:" + str(len(g["touched"])))
-            case = {"group": {k: v for k, v in g.items() if k not in ("cmds", "subprocess_cmds", "only_cmd", "fixed_cmds", "ood", "raw", "raw_rules", "js_ts_ok")}, "cmd": cmd, "file_names": list(names),
+            case = {"group": {k: v for k, v in g.items() if k not in ("cmds", "subprocess_cmds", "only_cmd", "fixed_cmds", "ood", "raw", "raw_rules", "ref_shift", "js_ts_ok")}, "cmd": cmd, "file_names": list(names),
                     "text_head": data[:300].decode("utf-8", "replace"), "impl": o, "detected_language": res["detected"], "spec_language": cl}
             if "error" in o:
                 chk.violation({"reason": "command failed outside the modelled outcomes", **case})
